@@ -105,6 +105,32 @@ def measKind (n q : Nat) (v : Vec) : MKind :=
 complete on stabilizer states) -/
 def sameRay (v w : Vec) : Bool := !Vec.isZero v && Z8.canonRay v == Z8.canonRay w
 
+/-! ### canonical form -/
+
+def increasing : List Nat → Bool
+  | a :: b :: rest => a < b && increasing (b :: rest)
+  | _ => true
+
+/-- number of rows whose cell in column `c` satisfies `sel` -/
+def colCount (sel : P → Bool) (rows : List (List P)) (c : Nat) : Nat :=
+  (rows.filter fun r => match r[c]? with | some p => sel p | none => false).length
+
+/-- Reduced row echelon form of the binary matrix `[X-bits | Z-bits]` of the rows: a prefix of rows with
+X-pivots in strictly increasing columns, then rows without any X/Y whose Z-pivots are in strictly
+increasing columns; every pivot column has its bit set in the pivot row only; no identity row. -/
+def rrefB (t : Tab) : Bool :=
+  let xrows := t.rows.takeWhile (fun r => r.any P.hasX)
+  let zrows := t.rows.dropWhile (fun r => r.any P.hasX)
+  let xp := xrows.filterMap (fun r => r.findIdx? P.hasX)
+  let zp := zrows.filterMap (fun r => r.findIdx? P.hasZ)
+  zrows.all (fun r => !r.any P.hasX) && zp.length == zrows.length &&
+  increasing xp && increasing zp &&
+  xp.all (fun c => colCount P.hasX t.rows c == 1) && zp.all (fun c => colCount P.hasZ t.rows c == 1)
+
+/-- `Canonical t`: the rows are in reduced row echelon form. -/
+def Canonical (t : Tab) : Prop := rrefB t = true
+instance (t : Tab) : Decidable (Canonical t) := by unfold Canonical; exact inferInstance
+
 /-! ### a vector stabilized by a tableau -/
 
 /-- `(1 + g)ψ` for a signed row `g` -/
